@@ -209,8 +209,8 @@ func run(p plan, srv netio.StreamServer) *obs {
 			}
 			o.cliOK = o.cliErr == nil
 		case p.Proto == "socks5":
-			o.raw5 = rawSocks5(cEnd, p.Methods, p.Pres[0], p.Cmd, p.Target)
-			o.cliOK = o.raw5.Stage == "done" && o.raw5.Rep == 0
+			o.raw5 = rawSocks5(cEnd, p.Methods, p.Pres[0], p.Cmd, p.Target, p.Pushy)
+			o.cliOK = o.raw5.Stage == "done" && o.raw5.Rep == 0 && !o.raw5.Pushed
 			if o.cliOK && p.Cmd == 1 {
 				cc = cEnd
 				first = append([][]byte{init}, c2s...)
@@ -294,8 +294,8 @@ func viol(p plan, sig, format string, args ...any) string {
 }
 
 func (p plan) describe() string {
-	return fmt.Sprintf("proto=%s peer=%s srvAuth=%v users=%v cliAuth=%v presented=%v classes=%v methods(n=%d,wantPos=%d) cmd=%d tcp=%v udp=%v target=%s badTarget=%q abort=%v code=%d local=%s srvPlan=%v/%v cliPlan=%v/%v glue=%v init=%d c2s=%v s2c=%v seed=%#x bufs=%d/%d writeTo=%v variant=%+v",
-		p.Proto, p.Peer, p.SrvAuth, p.Users, p.CliAuth, p.Pres, p.CredClass, len(p.Methods), p.WantPos, p.Cmd, p.EnableTCP, p.EnableUDP,
+	return fmt.Sprintf("proto=%s peer=%s srvAuth=%v users=%v cliAuth=%v presented=%v classes=%v methods(n=%d,wantPos=%d,pushy=%v) cmd=%d tcp=%v udp=%v target=%s badTarget=%q abort=%v code=%d local=%s srvPlan=%v/%v cliPlan=%v/%v glue=%v init=%d c2s=%v s2c=%v seed=%#x bufs=%d/%d writeTo=%v variant=%+v",
+		p.Proto, p.Peer, p.SrvAuth, p.Users, p.CliAuth, p.Pres, p.CredClass, len(p.Methods), p.WantPos, p.Pushy, p.Cmd, p.EnableTCP, p.EnableUDP,
 		p.Target, p.BadTarget, p.Abort, p.Code, p.Local, p.SrvPlan, p.SrvCoalesce, p.CliPlan, p.CliCoalesce, p.Glue, p.InitPayload, p.C2S, p.S2C,
 		p.Seed, p.CliBuf, p.SrvBuf, p.CliWriteTo, p.Variant)
 }
@@ -361,6 +361,30 @@ func check(p plan, o *obs) string {
 		if w.Sel != wantSel {
 			return viol(p, "method-selection", "server selected METHOD %#x, want %#x (offered n=%d, server's method at %d)", w.Sel, wantSel, len(offered), bytes.IndexByte(offered, want))
 		}
+		// what the client was told
+		clientTold := func() string {
+			switch {
+			case p.Peer == "raw":
+				r := o.raw5
+				if r.Sel != w.Sel || r.Auth != w.Auth || r.Rep != w.Rep {
+					return viol(p, "handshake-bytes", "harness client decoded sel=%d auth=%d rep=%d (stage %s, err %v), wire says sel=%d auth=%d rep=%d", r.Sel, r.Auth, r.Rep, r.Stage, r.Err, w.Sel, w.Auth, w.Rep)
+				}
+			case w.Auth > 0:
+				if !errors.Is(o.cliErr, socks5.ErrIncorrectUsernamePassword) {
+					return viol(p, "client-error", "server refused the credentials (STATUS=%d) but the client reports %v", w.Auth, o.cliErr)
+				}
+			case w.Rep == 0:
+				if o.cliErr != nil {
+					return viol(p, "client-error", "server replied success but the client reports %v", o.cliErr)
+				}
+			default:
+				var re socks5.ReplyError
+				if o.cliErr == nil || (errors.As(o.cliErr, &re) && int(re) != w.Rep) {
+					return viol(p, "client-error", "server replied REP=%d but the client reports %v", w.Rep, o.cliErr)
+				}
+			}
+			return ""
+		}
 		stage := "request"
 		if wantSel == 0xff {
 			stage = "refused"
@@ -381,6 +405,9 @@ func check(p plan, o *obs) string {
 			}
 			if o.srvErr == nil || o.srvHonoured {
 				return viol(p, "auth-gate", "request honoured although the negotiation failed (presented %v, selection %#x)", p.Pres, w.Sel)
+			}
+			if v := clientTold(); v != "" {
+				return v
 			}
 			break
 		}
@@ -433,22 +460,8 @@ func check(p plan, o *obs) string {
 				return viol(p, "command", "server extracted CMD=%d, client sent %d", byte(uc), p.Cmd)
 			}
 		}
-		// what the client was told
-		switch {
-		case p.Peer == "raw":
-			r := o.raw5
-			if r.Sel != w.Sel || r.Auth != w.Auth || r.Rep != w.Rep {
-				return viol(p, "handshake-bytes", "harness client decoded sel=%d auth=%d rep=%d (stage %s, err %v), wire says sel=%d auth=%d rep=%d", r.Sel, r.Auth, r.Rep, r.Stage, r.Err, w.Sel, w.Auth, w.Rep)
-			}
-		case w.Rep == 0:
-			if o.cliErr != nil {
-				return viol(p, "client-error", "server replied success but the client reports %v", o.cliErr)
-			}
-		default:
-			var re socks5.ReplyError
-			if o.cliErr == nil || (errors.As(o.cliErr, &re) && int(re) != w.Rep) {
-				return viol(p, "client-error", "server replied REP=%d but the client reports %v", w.Rep, o.cliErr)
-			}
+		if v := clientTold(); v != "" {
+			return v
 		}
 
 	case "http":
@@ -508,8 +521,15 @@ func check(p plan, o *obs) string {
 			}
 		}
 		if bad {
+			// a 407 too many or too few is a wrong authentication verdict; anything else a wrong status
 			sig := "status"
-			if !granted || len(st) <= len(want) || (len(st) > 0 && len(want) > 0 && !equalInts(st[:min(len(st), len(want))], want[:min(len(st), len(want))])) {
+			n407 := 0
+			for _, s := range st {
+				if s == 407 {
+					n407++
+				}
+			}
+			if n407 != len(want) || len(st) < len(want) {
 				sig = "auth-gate"
 			}
 			return viol(p, sig, "server sent statuses %v; want %v then %d (0: nothing more, -400: 400 or nothing, 200: any 2xx)", st, want, final)
@@ -595,7 +615,7 @@ func equalInts(a, b []int) bool {
 var recHS = ev.New("C07", "handshake",
 	"rapid: protocol {socks5,http,ssnone} x peer {repo client code, harness RFC client} x server auth x user table (0..4 users, names related by prefix / shared "+
 		"password / name=password) x presented credentials (exact, other user's password, swapped, affixes, bit flip, fresh, lengths 1 and 255, all byte values, none) "+
-		"x target (IPv4, IPv6, IPv4-mapped, domain 1..255 bytes, boundary and random ports) x method list (1..255, server's method at any position or absent) "+
+		"x target (IPv4, IPv6, IPv4-mapped, domain 1..255 bytes, boundary and random ports) x method list (1..255, server's method at any position or absent; the harness client optionally pushes its request after a refusal) "+
 		"x command (CONNECT, UDP ASSOCIATE, unsupported) x TCP/UDP enablement x Proceed/Abort(any code) x per-direction read fragmentation x post-handshake traffic "+
 		"both ways (server-first data optionally in the same segment as the success reply). Oracle: membership in the user table, RFC 1928/1929/9110 reply tables "+
 		"decoded from the server's wire bytes by the harness, byte-exact stream comparison. Non-trivial: domain >= 64 bytes, or server auth enabled, or a read limit "+
@@ -603,7 +623,7 @@ var recHS = ev.New("C07", "handshake",
 	Require("proto:socks5", "proto:http", "proto:ssnone", "peer:raw", "peer:repo", "auth:on", "auth:off",
 		"cred:accepted", "cred:wrong-password", "cred:unknown-user", "cred:affix", "cred:len255", "cred:len1", "cred:anybytes",
 		"addr:v4", "addr:v6", "addr:mapped", "addr:domain", "dom>=64", "dom=255", "dom=1", "port=0", "port=65535",
-		"cmd:udp", "cmd:unsupported", "cmd:disabled", "method:absent", "outcome:abort", "outcome:proceed",
+		"cmd:udp", "cmd:unsupported", "cmd:disabled", "method:absent", "pushy-after-refusal", "outcome:abort", "outcome:proceed",
 		"abort:unknown-code", "frag:midfield", "glue", "http:readahead", "http:retry-after-407", "stream:both-ways")
 
 func lenClass(n int) string {
@@ -748,6 +768,10 @@ func classify(p plan, o *obs) (key string, nontrivial bool, labels []string) {
 		}
 	}
 	outKey := "refused"
+	if o.raw5.Pushed {
+		add("pushy-after-refusal")
+		outKey = "refused+pushed"
+	}
 	if o.srvHonoured {
 		if p.Abort {
 			add("outcome:abort")
@@ -812,10 +836,14 @@ func TestHandshake(t *testing.T) {
 			o *obs
 			v string
 		)
-		synctest.Test(t, func(*testing.T) {
-			o = run(p, srv)
-			v = check(p, o)
-		})
+		if _, err := p.Target.connAddrErr(); err != nil {
+			v = viol(p, "addr-rejected", "conn.AddrFromDomainPort refused a %d-byte domain: %v", len(p.Target.Domain), err)
+		} else {
+			synctest.Test(t, func(*testing.T) {
+				o = run(p, srv)
+				v = check(p, o)
+			})
+		}
 		if v != "" {
 			sig := strings.TrimPrefix(strings.SplitN(v, " ", 2)[0], "SIG=")
 			if ev.IsKnown("C07", sig) {
